@@ -10,6 +10,7 @@ from tree_sitter import Node
 from nix_manipulator.exceptions import NixSyntaxError
 from nix_manipulator.expressions.binding import Binding, _split_attrpath
 from nix_manipulator.expressions.binding_parser import parse_binding_sequence
+from nix_manipulator.expressions.comment import Comment, MultilineComment
 from nix_manipulator.expressions.expression import NixExpression, TypedExpression
 from nix_manipulator.expressions.identifier import Identifier
 from nix_manipulator.expressions.inherit import Inherit
@@ -208,6 +209,21 @@ def _render_bindings(
     return rendered
 
 
+def _ends_in_line_comment(values: Sequence[Any]) -> bool:
+    """A `#` comment ends its line, so a set holding one cannot stay on one line."""
+    for item in values:
+        trivia = list(getattr(item, "after", None) or [])
+        value = getattr(item, "value", None)
+        if isinstance(value, NixExpression):
+            trivia.extend(value.after)
+        if any(
+            isinstance(entry, Comment) and not isinstance(entry, MultilineComment)
+            for entry in trivia
+        ):
+            return True
+    return False
+
+
 @dataclass(slots=True, repr=False)
 class AttributeSet(TypedExpression):
     """Nix attribute set with trivia-aware formatting."""
@@ -352,7 +368,7 @@ class AttributeSet(TypedExpression):
                 return apply_trailing_trivia(set_str, self.after, indent=indent)
             return self.add_trivia(f"{prefix}{{ }}", indent=indent, inline=inline)
 
-        if self.multiline:
+        if self.multiline or _ends_in_line_comment(self.values):
             before_str = format_trivia(self.before, indent=indent)
             render_values = self.attrpath_order if self.attrpath_order else self.values
             bindings_str = "\n".join(
